@@ -33,7 +33,7 @@ class Mon:
         self.evals = 0
 
     def count(self, key, n=1):
-        self.obs[key] = self.obs.get(key, 0) + n
+        self.obs[key] = self.obs.get(key, 0) + (int(n) if isinstance(n, (bool, np.bool_, np.integer)) else n)
 
     def note_max(self, key, v):
         key = 'max_' + key
